@@ -32,23 +32,26 @@ UNIT = {
      'rewrites': [
         # R6: iterator loop over chunks_exact(4) -> index loop over the hoisted, collected windows
         {'rule': 'R6', 'find': 'let mut chunks = data.chunks_exact(4);', 'replace': 'let chunks = hoist_chunks_exact4(data);'},
-        {'rule': 'R6', 'find': 'for chunk in chunks.by_ref() {',
-         'replace': 'proof { assert(data@.subrange(0, data@.len() as int) =~= data@); assert(buf@ + enc85_spec(data@) =~= enc85_spec(data@)); } '
-                    'let mut i_: usize = 0; while i_ < chunks.len() { let chunk = chunks[i_]; let ghost b0 = buf@; let ghost i0 = i_ as int; i_ += 1;'},
+        {'rule': 'R6', 'regex': r'for\s+(\w+)\s+in\s+chunks\.by_ref\(\)\s*\{',
+         'replace': r'proof { assert(data@.subrange(0, data@.len() as int) =~= data@); assert(buf@ + enc85_spec(data@) =~= enc85_spec(data@)); } '
+                    r'let mut i_: usize = 0; while i_ < chunks.len() { let \1 = chunks[i_]; let ghost b0 = buf@; let ghost i0 = i_ as int; i_ += 1;'},
         {'rule': 'R6', 'find': 'chunks.remainder()', 'replace': 'hoist_remainder4(data)'},
-        {'rule': 'R7', 'find': 'chunk.try_into().unwrap()', 'replace': 'hoist_try_into4(chunk)'},
+        {'rule': 'R7', 'regex': r'(\w+)\.try_into\(\)\.unwrap\(\)', 'replace': r'hoist_try_into4(\1)'},
         {'rule': 'R7', 'find': 'b"~>"', 'replace': 'hoist_lit_eod()'},
-        # R1 ghost
-        {'rule': 'R1', 'find': "buf.push(b'z');",
-         'replace': "buf.push(b'z'); proof { assert(buf@ =~= b0 + seq![0x7au8]); lemma_enc85_step(data@, i0, b0, c@, buf@); }"},
-        {'rule': 'R1', 'find': 'buf.extend_from_slice(&base85_chunk(c));',
-         'replace': 'buf.extend_from_slice(&base85_chunk(c)); '
-                    'proof { let e = buf@.subrange(b0.len() as int, buf@.len() as int); lemma_a85_group_unique(c@, e); '
-                    'assert(buf@ =~= b0 + a85_group(c@)); lemma_enc85_step(data@, i0, b0, c@, buf@); }'},
-        {'rule': 'R1', 'find': 'let out = base85_chunk(c);',
-         'replace': 'let out = base85_chunk(c); '
-                    'proof { lemma_a85_group_unique(c@, out@); assert(c@ =~= r@ + zeros(4 - r@.len())); '
-                    'assert(r@ =~= data@.subrange(4 * (data@.len() as int / 4), data@.len() as int)); }'},
+        # R1 ghost, keyed on shapes (names captured): the group of this iteration, the end of the chunk loop (= the `}` in front
+        # of the remainder statement), the remainder, the tail's `let <out> = base85_chunk(<c>);`.
+        # The per-iteration step is the SAME branch-agnostic proof block (lemmas with implication-style posts only) after every
+        # `buf.push(..);` / `buf.extend_from_slice(..);` that textually precedes the remainder statement (= inside the chunk loop);
+        # writes of the tail get none.
+        {'rule': 'R1', 'regex': r'(let\s+(\w+)\s*:\s*\[u8;\s*4\]\s*=\s*hoist_try_into4\(\w+\);)', 'replace': r'\1 let ghost gc = \2@;'},
+        {'rule': 'R1', 'regex': r'(buf\.(?:push|extend_from_slice)\([^;]*\);)(?=.*\bhoist_remainder4\()',
+         'replace': r'\1 proof { let e = buf@.subrange(b0.len() as int, buf@.len() as int); lemma_a85_group_unique_if(gc, e); '
+                    r'assert(buf@ =~= b0 + e); lemma_enc85_step(data@, i0, b0, gc, buf@); }', 'count': '*'},
+        {'rule': 'R1', 'regex': r'let\s+(\w+)\s*=\s*hoist_remainder4\(data\);', 'replace': r'let \1 = hoist_remainder4(data); let ghost gr = \1@;'},
+        {'rule': 'R1', 'regex': r'let\s+(\w+)\s*=\s*base85_chunk\((\w+)\);', 'count': '*',
+         'replace': r'let \1 = base85_chunk(\2); '
+                    r'proof { lemma_a85_group_unique(\2@, \1@); assert(\2@ =~= gr + zeros(4 - gr.len())); '
+                    r'assert(gr =~= data@.subrange(4 * (data@.len() as int / 4), data@.len() as int)); }'},
      ]},
   'encode_nibble': {'kind': 'fn', 'file': E, 'container': None, 'name': 'encode_nibble', 'props': ['C16'],
      # call sites: encode_hex only, with `b >> 4` and `b & 0xf`
